@@ -167,6 +167,9 @@ def check(fb, ctx):
             ok = ok or (any(l.endswith("Authorizer::run") for l in leaves) and any("elapsed" in l for l in leaves))
         ctx.check(ok, "ACCOUNT", f"Authorizer::{fn}: execution_time = earlier run time + this call's elapsed time", f"ACCOUNT|{fn}|sum", "the stored execution time no longer depends on both self.run()'s duration and start.elapsed(): time consumed earlier is forgotten", f"{b['file']}:{b['line']}")
 
+    # consumed time and the time budget survive a snapshot / restore hop unchanged
+    from props import c13
+    c13.snapshot_units_rules(fb, ctx)
     # ---- TIMECHECK in authorize_inner
     ab = fb.body(f"{A}::authorize_inner")
     ah = fb.hir_of(ab)
